@@ -24,7 +24,9 @@ RULE = ("streams: lattice (integer/dyadic vectors, the 24 signed-permutation rot
         "(wrong shapes, zero / negative factors, zero or collinear up/look). euler: every one of the 39 axis-order strings "
         "over x,y,z of length 1..3 with both units in every run (plus random angles 1e-6..1e6, length mismatches, a scalar "
         "angle); apply: builder outputs, products of builders and arbitrary 4x4 matrices on single points / stacks / empty "
-        "stacks with both flags; compose: 0..4 matrices. A case is non-trivial unless it is an empty stack or compose(); "
+        "stacks with both flags; compose: 0..4 matrices, about a third of the lists with a non-affine member (small integer / "
+        "dyadic entries, last row != (0,0,0,1)) so that the unrestricted composition-order clause is exercised (known finding "
+        "compose/order/non-affine; harness/corpus/C11 holds the minimal case). A case is non-trivial unless it is an empty stack or compose(); "
         "distinct = distinct spec")
 TRUSTED = ["np.linalg.norm / np.dot / np.cross / np.radians / np.cos / np.sin modelled as sqrt(v.v), dot, cross, x*(pi/180), cos, sin",
            "np.pad / np.diag / np.eye / ndarray.T / np.delete modelled by the matrices they build",
@@ -102,7 +104,7 @@ def dedupe(out):
 
 def gen_matrix(rng, kind=None):
     """a 4x4 matrix spec: built from the public builders or arbitrary"""
-    kind = kind or rng.choice(["trans", "scale", "rot", "rotq", "trs", "any", "anyaffine", "lat"])
+    kind = kind or rng.choice(["trans", "scale", "rot", "rotq", "trs", "any", "anyaffine", "lat", "proj"])
     if kind == "trans":
         return {"k": "trans", "v": gens.lat(rng, 4, rng.choice([1, 2, 4]))}
     if kind == "scale":
@@ -117,6 +119,12 @@ def gen_matrix(rng, kind=None):
                 "f": [10.0 ** rng.uniform(-2, 2) for _ in range(3)]}
     if kind == "lat":
         return {"k": "any", "M": [[float(rng.randint(-3, 3)) for _ in range(4)] for _ in range(4)]}
+    if kind == "proj":
+        # non-affine on purpose: small integer / dyadic entries, last row != (0, 0, 0, 1)
+        M = [[rng.choice([-2.0, -1.0, 0.0, 0.0, 0.5, 1.0, 1.0, 2.0]) for _ in range(4)] for _ in range(3)]
+        last = rng.choice([[0.0, 0.0, 0.0, 2.0], [0.0, 0.0, 0.0, 0.5], [0.0, 0.0, 1.0, 1.0], [1.0, 0.0, 0.0, 0.0],
+                           [0.0, 0.5, 0.0, 1.0], [0.0, 0.0, 0.0, -1.0], [0.0, 0.0, 0.0, 0.0], [1.0, -1.0, 2.0, 3.0]])
+        return {"k": "proj", "M": M + [last]}
     if kind == "anyaffine":
         s = gens.scale_of(rng, -3, 3)
         return {"k": "any", "M": [[rng.uniform(-1, 1) * s for _ in range(4)] for _ in range(3)] + [[0.0, 0.0, 0.0, 1.0]]}
@@ -250,7 +258,7 @@ def gen(rng, tier):
     for i in range(500 if q else 4000):
         k = rng.choice([0, 1, 1, 1, 2, 3, 5, 8]) if rng.random() < 0.95 else rng.randint(20, 50)
         stream = "lattice" if i % 2 == 0 else "float"
-        yield {"op": "apply", "stream": stream, "M": gen_matrix(rng, rng.choice(["trans", "scale", "rot", "lat"]) if stream == "lattice" else None),
+        yield {"op": "apply", "stream": stream, "M": gen_matrix(rng, rng.choice(["trans", "scale", "rot", "lat", "proj"]) if stream == "lattice" else None),
                "k": k, "single": k == 1 and rng.random() < 0.6, "dz": rng.random() < 0.3, "av": rng.random() < 0.4,
                "ptseed": rng.randrange(1 << 30)}
     for i in range(6 if q else 40):
@@ -259,7 +267,10 @@ def gen(rng, tier):
     for i in range(400 if q else 3000):
         n = rng.choice([0, 1, 2, 2, 2, 3, 3, 4])
         stream = "lattice" if i % 2 == 0 else "float"
-        kinds = ["trans", "scale", "rot", "lat"] if stream == "lattice" else ["trans", "scale", "rotq", "trs", "any", "anyaffine"]
+        # about a third of the lists contain a non-affine matrix ("lat" / "proj" / "any": last row != (0,0,0,1)); the
+        # composition-order clause is false for those on the real code (known finding compose/order/non-affine)
+        kinds = (["trans", "scale", "rot", "trans", "scale", "rot", "lat", "proj"] if stream == "lattice"
+                 else ["trans", "scale", "rotq", "trs", "anyaffine", "trans", "rotq", "any", "proj"])
         yield {"op": "compose", "stream": stream, "Ms": [gen_matrix(rng, rng.choice(kinds)) for _ in range(n)],
                "ptseed": rng.randrange(1 << 30)}
     for i in range(4 if q else 20):
@@ -569,6 +580,8 @@ def make_uscale(spec):
 
 def points_of(spec, k):
     import random
+    if "pts" in spec:
+        return [list(p) for p in spec["pts"]][:k]
     rng = random.Random(spec["ptseed"])
     if spec["stream"] == "lattice":
         return [gens.lat(rng, 4, rng.choice([1, 2, 4])) for _ in range(k)]
@@ -664,19 +677,26 @@ def make_compose(spec):
             want = mmul(FM(M), want)
         if max(abs(a - b) for ra, rb in zip(C, want) for a, b in zip(ra, rb)) > tol:
             out.append(("compose/product", "compose_transforms differs from t_n ... t_1"))
-        # point level (affine matrices only; apply does not divide by w): apply(compose(A, B..))(p) = apply(B)(apply(A)(p))
-        if all(list(M[3]) == [0.0, 0.0, 0.0, 1.0] for M in Ms):
-            pts = np.array(points_of(spec, 3), dtype=np.float64)
-            got = apply_transform(compose_transforms(*[M.copy() for M in Ms]))(pts.copy())
-            step = [[Fr(x) for x in p] for p in pts]
-            for M in Ms:
-                A = FM(M)
-                step = [mvec(A, p + [F(1)])[:3] for p in step]
-            mag = max([abs(x) for p in step for x in p] + [Fr(scale) * max(Fr(gens.maxabs(pts)), 1)])
-            for g, s in zip(got, step):
-                if any(abs(Fr(a) - b) > F(1, 10 ** 11) * mag for a, b in zip(g, s)):
-                    out.append(("compose/left-to-right", "applying compose(A, B, ..) differs from applying A, then B, ..: %s vs %s"
-                                % (g.tolist(), [float(x) for x in s])))
+        # point level, as the property states it for all 4x4 matrices: apply(compose(A, B, ..))(p) = apply(..)(apply(B)(apply(A)(p))).
+        # apply_transform drops the 4th coordinate without dividing, so the clause can only fail when a matrix that is
+        # not the last one is non-affine: that is the listed finding compose/order/non-affine; for affine prefixes a
+        # difference is a new violation (compose/left-to-right).
+        affine = [list(M[3]) == [0.0, 0.0, 0.0, 1.0] for M in Ms]
+        pts = np.array(points_of(spec, 3), dtype=np.float64).reshape(-1, 3)
+        got = apply_transform(compose_transforms(*[M.copy() for M in Ms]))(pts.copy())
+        step = [[Fr(x) for x in p] for p in pts]
+        seq = pts.copy()
+        for M in Ms:
+            A = FM(M)
+            step = [mvec(A, p + [F(1)])[:3] for p in step]
+            seq = apply_transform(M.copy())(seq)          # the real code, one transform after the other
+        mag = max([abs(x) for p in step for x in p] + [Fr(scale) * max(Fr(gens.maxabs(pts)), 1)])
+        key = "compose/left-to-right" if all(affine[:-1]) else "compose/order/non-affine"
+        for g, s_, q, p in zip(got, step, seq, pts):
+            if any(abs(Fr(a) - b) > F(1, 10 ** 11) * mag for a, b in zip(g, s_)) or \
+                    any(abs(Fr(a) - Fr(b)) > F(1, 10 ** 11) * mag for a, b in zip(g, q)):
+                out.append((key, "applying compose(A, B, ..) to %s gives %s, applying A, then B, .. gives %s (last rows %s)"
+                            % (p.tolist(), g.tolist(), [float(x) for x in s_], [[float(x) for x in M[3]] for M in Ms])))
         return dedupe(out)
 
     kl = "compose/%s/n%d/%s" % (spec["stream"], len(Ms),
